@@ -169,7 +169,10 @@ def timerEffects (s : State) (n : Name) : List Prim :=
   else []
 
 /-- buildCache(from): records of the visited day files, oldest day first, not after the
-    current cache start; first record of a name wins; names already cached are kept. -/
+    current cache start; names that were cached before this build are kept; of the records read
+    now the LATEST one of a name counts (after `fix:` "buildCache kept the oldest of several
+    records of a name": every record of a name that was not cached before overwrites the entry
+    loaded from the previous one). -/
 def buildCacheLoad (recs : List LogRec) (cached : Name → Bool) (now : Int) : List Prim :=
   match recs with
   | [] => []
@@ -178,7 +181,7 @@ def buildCacheLoad (recs : List LogRec) (cached : Name → Bool) (now : Int) : L
     else Prim.cacheSet r.name
            { renamed := r.renamed, prev := "", hash := r.hash, size := r.size, state := .logged,
              logged := some r.time, time := now } ::
-         buildCacheLoad rs (fun x => x = r.name ∨ cached x) now
+         buildCacheLoad rs cached now
 
 def buildCacheEffects (s : State) (frm : Int) (now : Int) : List Prim :=
   match s.mem.cacheTime with
@@ -244,6 +247,25 @@ def minMtime (d : Disk) (now : Int) : List Name → Int
                | some _ => if d.cmpMtime n < r then d.cmpMtime n else r
                | none => r
 
+/-- Recover()'s test for a completed duplicate in its validate loop (after `fix:` "Ignoring
+    duplicate (recover)", the counterpart of "Ignoring duplicate (receive)"): the cache entry of
+    the name (the cache was just built from the receive log) is finalized or logged and carries
+    the companion's hash. -/
+def recoverDup (m : Mem) (n : Name) (c : Cmp) : Bool :=
+  match m.cache n with
+  | some ex => decide (ex.state.num ≥ 3 ∧ ex.hash = c.hash)
+  | none => false
+
+/-- one entry of Recover()'s validate list, in state `t`: a completed duplicate of a version
+    that is already logged is dropped (`.full` first, companion second, path lock released);
+    anything else gets the state received and is validated by process(). -/
+def recoverValOne (H : Body → String) (t : State) (now : Int) (x : Name × Cmp) : List Prim :=
+  if recoverDup t.mem x.1 x.2 then [Prim.rmFull x.1, Prim.rmCmp x.1, Prim.lockDel x.1]
+  else
+    toCache t.mem x.1 (Entry.ofCmp x.2 .received) .received now ++
+    processCore H (run t (toCache t.mem x.1 (Entry.ofCmp x.2 .received) .received now)) x.1
+      { Entry.ofCmp x.2 .received with time := now } now
+
 /-- Recover(), sequentialised: walk, cache build, then finalize- and validate-lists. The
     primitives of the later phases are computed on the state produced by the earlier ones,
     so the whole is a fold. -/
@@ -262,11 +284,7 @@ def recoverEffects (H : Body → String) (s : State) (now : Int) (names : List N
     (run acc.1 ps, acc.2 ++ ps)
   let r3 := fins.foldl stepF (s2, [])
   let stepV := fun (acc : State × List Prim) (x : Name × Cmp) =>
-    let e := Entry.ofCmp x.2 .received
-    let ps0 := toCache acc.1.mem x.1 e .received now
-    let s' := run acc.1 ps0
-    let ps1 := processCore H s' x.1 { e with time := now } now
-    (run s' ps1, acc.2 ++ ps0 ++ ps1)
+    (run acc.1 (recoverValOne H acc.1 now x), acc.2 ++ recoverValOne H acc.1 now x)
   let r4 := vals.foldl stepV r3
   p1 ++ p2 ++ r4.2 ++ [Prim.setReady true]
 
